@@ -17,6 +17,8 @@ def dispatch(kind, payload):
         return r_c10(model, payload)
     if kind == "compact":
         return r_compact(model, payload)
+    if kind == "hex":
+        return r_hex(model)
     return {"confirmed": False, "note": "no native replay for kind %s" % kind}
 
 
@@ -249,3 +251,36 @@ def r_c10(model, payload):
 def r_compact(model, payload):
     from a5verif import replay_compact
     return replay_compact.r_compact(model, payload)
+
+
+# ------------------------------------------------------------------------------------------------ C19
+def r_hex(model):
+    from a5.core.hex import hex_to_u64, u64_to_hex
+    cands = []
+    if isinstance(model.get("n"), int):
+        cands.append(model["n"])
+    for b in range(0, 65):
+        cands += [(1 << b) - 1, 1 << b, (1 << b) + 1]
+    for lane in range(4):
+        for v in (1, 0xF, 0x10, 0xABC, 0xFFFF, 0x8000, 0x0F0F):
+            cands += [v << (16 * lane), (0xFFFFFFFFFFFFFFFF & ~(0xFFFF << (16 * lane))) | (v << (16 * lane))]
+    import random
+    rng = random.Random(0)
+    cands += [rng.getrandbits(rng.randrange(1, 65)) for _ in range(3000)]
+    seen = set()
+    for n in cands:
+        if not (0 <= n < 2 ** 64) or n in seen:
+            continue
+        seen.add(n)
+        want = "%x" % n
+        try:
+            t = u64_to_hex(n)
+            if t != want:
+                return {"confirmed": True, "input": n, "observed": "u64_to_hex -> %r" % (t,), "expected": want}
+            for s in (t, t.upper(), "0" + t, "0000" + t, "".join(c.upper() if i % 2 else c for i, c in enumerate(t))):
+                v = hex_to_u64(s)
+                if v != n:
+                    return {"confirmed": True, "input": n, "observed": "hex_to_u64(%r) -> %r" % (s, v), "expected": n}
+        except Exception as e:
+            return {"confirmed": True, "input": n, "observed": "raised %s: %s" % (type(e).__name__, e), "expected": want}
+    return {"confirmed": False, "note": "no failing value among %d candidates" % len(seen)}
